@@ -2,7 +2,7 @@
 import errno as _errno
 
 from . import cfg
-from .facts import AnalysisBroken, strip_tmpl
+from .facts import AnalysisBroken, strip_tmpl, VERIF
 
 WOULD_BLOCK = {_errno.EAGAIN, _errno.EWOULDBLOCK}
 
@@ -204,10 +204,24 @@ def guard_of_decl(ev):
     return (ev["var"], "expr:" + (m.get("t") or ""), "")
 
 
-def locksets(func, entry=None, initial=frozenset()):
+def lambda_unlocks(prog, func):
+    """{lambda id: set of guard variables the lambda body may unlock (captured by reference)}."""
+    res = {}
+    for lf in prog.lambdas_in(func):
+        vs = set()
+        for e in lf.events("call"):
+            if (e.get("callee") or "").rsplit("::", 1)[-1] == "unlock" and (e.get("recv") or {}).get("v"):
+                vs.add(e["recv"]["v"])
+        if vs:
+            res[lf.name] = vs
+    return res
+
+
+def locksets(func, entry=None, initial=frozenset(), lam_unlocks=None):
     """Forward dataflow of held RAII guards.  Returns {(block, idx): [frozenset((var, mutex, base)), ...]} giving, for every
-    event, the lock set of every explored state *before* the event executes."""
+    event, the lock set of every explored state *before* the event executes.  lam_unlocks: see lambda_unlocks()."""
     at = {}
+    lam_unlocks = lam_unlocks or {}
 
     def step(st, ev):
         at.setdefault((ev.block, ev.idx), set()).add(st)
@@ -225,6 +239,9 @@ def locksets(func, entry=None, initial=frozenset()):
             name = (ev.get("callee") or "").rsplit("::", 1)[-1]
             if name == "unlock" and rv.get("v") and any(x[0] == rv["v"] for x in st):
                 return frozenset(x for x in st if x[0] != rv["v"])
+            c = ev.get("callee") or ""
+            if c in lam_unlocks:
+                return frozenset(x for x in st if x[0] not in lam_unlocks[c])
         return st
     for ent in ([entry] if entry is not None else cfg.region_entries(func)):
         cfg.run_automaton(func, initial, step, start=ent)
@@ -239,3 +256,129 @@ def holds(lockstates, mutex_field, base):
         if not any(m == mutex_field and b == base for (_v, m, b) in st):
             return False
     return True
+
+
+# ---------- field write sets (analyses E / F) ----------
+
+STREAMBUF_AREA = "std::basic_streambuf::<get-area>"
+_STREAMBUF_MUTATORS = {"setg", "gbump", "sbumpc", "snextc", "sgetn", "setp", "pbump", "sputc", "sputn", "pubseekpos", "pubseekoff"}
+
+
+# Frozen table of standard-library member functions that modify the object they are called on (analysis E/F).
+# operator[] inserts only on associative containers.
+STL_MUTATORS = {"insert", "insert_or_assign", "emplace", "emplace_back", "emplace_front", "emplace_hint", "try_emplace", "erase", "clear",
+                "push_back", "push_front", "pop_back", "pop_front", "swap", "reserve", "resize", "assign", "append", "replace", "operator=",
+                "operator+=", "reset", "release", "merge", "extract", "shrink_to_fit", "store", "exchange", "fetch_add", "fetch_sub",
+                "operator++", "operator--", "splice", "remove", "remove_if", "sort", "unique", "reverse", "fill", "push", "pop"}
+_MAP_TYPES = ("std::map", "std::unordered_map", "std::multimap", "std::unordered_multimap")
+
+
+def is_stl_mutation(ev):
+    callee = ev.get("callee") or ""
+    name = callee.rsplit("::", 1)[-1]
+    if name in STL_MUTATORS:
+        return True
+    if name == "operator[]":
+        return strip_tmpl(callee).rsplit("::", 1)[0] in _MAP_TYPES
+    return False
+
+
+def _is_const_callee(ev):
+    cid = ev.get("cid") or ""
+    return cid.rstrip().endswith(" const")
+
+
+def direct_writes(func):
+    """Field-level effects of one function body: list of (field, how, event).  `how` is 'assign', 'incdec', 'call:<method>' (non-const
+    member call on a field of a non-repo type, e.g. a std container), 'whole' (copy/move assignment of a whole member object) or 'init'."""
+    out = []
+    if func.d.get("ctor"):
+        return out      # constructors only write the object under construction; the store of that object is seen at the store site
+    for e in func.events():
+        k = e["k"]
+        if k == "assign":
+            f = e["lhs"].get("f")
+            if f:
+                out.append((f, "assign", e))
+        elif k == "incdec":
+            f = (e.get("operand") or {}).get("f")
+            if f:
+                out.append((f, "incdec", e))
+        elif k == "init":
+            if e.get("f"):
+                out.append((e["f"], "init", e))
+        elif k == "call":
+            rv = e.get("recv") or {}
+            callee = e.get("callee") or ""
+            name = callee.rsplit("::", 1)[-1]
+            if strip_tmpl(callee).startswith("std::basic_streambuf::") and name in _STREAMBUF_MUTATORS:
+                out.append((STREAMBUF_AREA, "call:" + name, e))
+                continue
+            if callee in ("std::back_inserter", "std::inserter", "std::front_inserter") and e.get("args") and e["args"][0].get("f"):
+                out.append((e["args"][0]["f"], "call:" + name, e))
+                continue
+            f = rv.get("f")
+            if not f:
+                continue
+            if e.get("op") == "=":
+                out.append((f, "whole", e))
+            elif not _is_const_callee(e) and not (e.get("cfile") or "").startswith(facts_repo()) and is_stl_mutation(e):
+                out.append((f, "call:" + name, e))
+    return out
+
+
+def facts_repo():
+    from . import facts
+    return facts.REPO
+
+
+def transitive_writes(prog, roots, stop=None):
+    """{field: [(how, event, chain)]} for every function reachable from roots through resolved calls (virtual fan-out included;
+    lambdas defined in reachable functions included)."""
+    reach = callgraph_reach(prog, roots, follow=(lambda e: not (stop and stop(e))))
+    res = {}
+    for fid, (f, chain) in reach.items():
+        for fld, how, ev in direct_writes(f):
+            res.setdefault(fld, []).append((how, ev, chain))
+    return res, reach
+
+
+def class_closure(prog, roots):
+    """Classes owned by value from `roots` (exact names, template arguments included): bases and fields of class type, recursively."""
+    byname = {}
+    for cc in prog.class_list:
+        if not cc.get("dependent"):
+            byname.setdefault(cc["name"], cc)
+    seen = set()
+    work = list(roots)
+    while work:
+        c = work.pop()
+        if c in seen:
+            continue
+        seen.add(c)
+        cc = byname.get(c)
+        if cc is None:
+            continue
+        for b in cc.get("bases", []):
+            if b.get("name"):
+                work.append(b["name"])
+        for fl in cc.get("fields", []):
+            if fl.get("rec"):
+                work.append(fl["rec"])
+    return seen
+
+
+def fields_of(prog, cls_name):
+    for cc in prog.class_list:
+        if cc["name"] == cls_name and not cc.get("dependent"):
+            return list(cc.get("fields", []))
+    return []
+
+
+def whole_object_cover(prog, cls_name):
+    """Qualified names of all fields covered by assigning a whole object of class cls_name."""
+    cov = set()
+    for c in class_closure(prog, [cls_name]):
+        for fl in fields_of(prog, c):
+            cov.add(fl["q"])
+    return cov
